@@ -151,3 +151,11 @@ META["C15"] = dict(
     level_note="Hook: verifhook.ParseJSON (build tag verif) = parser.Parse + encoding/json of the tree, no custom dump code.",
 )
 HOOK_COMMITS.append("f09a637")
+
+META["C14"] = dict(
+    engine="lang",
+    design_ref="DESIGN.md 3/C14",
+    technique="grammar-directed generation of valid schema sets plus one mutation operator per language rule, all run through the real `spec generate` binary and `go build` of its output; oracle = reject-with-name or compiles",
+    level_text="Exploration: generated multi-package schema sets (imports with aliases, enums, nested structs, every message field kind, lists, keyword names, tags to 65535, services with every method shape and subservices) must be accepted and their output must compile; for every base set each of 42 single-rule mutation operators (every operator is required to occur) is applied at a drawn site: the tool must never panic or hang, must exit non-zero with an error naming the mutated element when a listed rule is broken, must not exit 0 on a lexical error, and whatever it accepts must compile.",
+    level_note="One site per operator and base set (sites vary across base sets). Error naming is a substring check.",
+)
